@@ -60,7 +60,7 @@ theorem syncCreateTasks_good {j0 : JobObj} (s : Sys) (jo : JobObj) (tasks : List
     · intro h
       simp only [Option.some.injEq, Prod.mk.injEq] at h
       obtain ⟨rfl, rfl⟩ := h
-      exact ⟨GK.refl hg, ht⟩
+      exact ⟨GK.refl hg, adoptUnrecordedTasks_good s jo tasks hp ht⟩
     · cases hreqs : computeMissingIndexesForCreation s.d jo.job (jo.job.indexes s.d) with
       | none => (try simp only); intro h; cases h
       | some reqs =>
